@@ -436,3 +436,55 @@ func (vx *Vaxis) ClipboardPush(b string)
 func (vx *Vaxis) handleSequence(seq ansi.Sequence)
   requires wf: typeis(seq, "ansi.CSI") ==> CSIWF(unbox(seq, "ansi.CSI"))
 @*/
+
+/*@
+-- ------------------------------------------------------------------ images (C20)
+-- Images are values of types outside the module. What the module's code learns about one comes through
+-- image.Image.Bounds / At and color.Color.RGBA; these are taken as fixed functions of the image (assumed: the
+-- source image is not mutated while it is being converted, and an image's bounds never change).
+ufun imgBounds(img image.Image) image.Rectangle
+ufun imgAt(img image.Image, x int, y int) color.Color
+ufun colR(c color.Color) uint32
+ufun colG(c color.Color) uint32
+ufun colB(c color.Color) uint32
+ufun colA(c color.Color) uint32
+extern attr image.Image.Bounds = imgBounds
+extern attr image.Image.At = imgAt
+extern attr image/color.Color.RGBA = colR, colG, colB, colA
+
+extern func image.Rect(x0, y0, x1, y1)
+  ensures result.Min.X == min(x0, x1) && result.Max.X == max(x0, x1) && result.Min.Y == min(y0, y1) && result.Max.Y == max(y0, y1)
+extern func image.NewRGBA(r)
+  ensures result != nil && imgBounds(boxed(result)) == r
+
+pred cdiv(a int, b int) int = (a % b == 0) ? a / b : a / b + 1
+pred ImgOK(img image.Image) = img != nil && imgBounds(img).Min.X == 0 && imgBounds(img).Min.Y == 0 && imgBounds(img).Max.X >= 0 && imgBounds(img).Max.Y >= 0
+pred imgW(img image.Image) int = imgBounds(img).Max.X
+pred imgH(img image.Image) int = imgBounds(img).Max.Y
+
+pred fitsBox(img image.Image, w int, h int, cpw int, cph int) = cdiv(imgW(img), cpw) <= w && cdiv(imgH(img), cph) <= h
+pred scaleOf(img image.Image, w int, h int, cpw int, cph int) float64 =
+    (real(w) / real(cdiv(imgW(img), cpw)) <= real(h) / real(cdiv(imgH(img), cph))) ? real(w) / real(cdiv(imgW(img), cpw)) : real(h) / real(cdiv(imgH(img), cph))
+
+func resizeImage(img image.Image, w int, h int, cellPixW int, cellPixH int) image.Image
+  requires ImgOK(img) && imgW(img) > 0 && imgH(img) > 0 && cellPixW > 0 && cellPixH > 0 && w >= 0 && h >= 0
+  assume draw.NearestNeighbor != nil -- package-level interpolator of golang.org/x/image/draw, never reassigned
+  ensures ok: ImgOK(result)
+  -- the cell size of the result never exceeds the requested box
+  ensures C20_fit: cdiv(imgW(result), cellPixW) <= w && cdiv(imgH(result), cellPixH) <= h
+  -- never upscaled
+  ensures C20_noupscale: imgW(result) <= imgW(img) && imgH(result) <= imgH(img)
+  -- the aspect ratio is kept to within one cell: both cell dimensions are within one of the original ones
+  -- scaled by the same factor s < 1 (the largest that fits the box); stated as four separate inequalities
+  ensures C20_aspect_s: !fitsBox(img, w, h, cellPixW, cellPixH) ==> scaleOf(img, w, h, cellPixW, cellPixH) < 1.0
+  ensures C20_aspect_w_hi: !fitsBox(img, w, h, cellPixW, cellPixH) ==>
+        real(cdiv(imgW(result), cellPixW)) - scaleOf(img, w, h, cellPixW, cellPixH) * real(cdiv(imgW(img), cellPixW)) < 1.0
+  ensures C20_aspect_w_lo: !fitsBox(img, w, h, cellPixW, cellPixH) ==>
+        scaleOf(img, w, h, cellPixW, cellPixH) * real(cdiv(imgW(img), cellPixW)) - real(cdiv(imgW(result), cellPixW)) < 1.0
+  ensures C20_aspect_h_hi: !fitsBox(img, w, h, cellPixW, cellPixH) ==>
+        real(cdiv(imgH(result), cellPixH)) - scaleOf(img, w, h, cellPixW, cellPixH) * real(cdiv(imgH(img), cellPixH)) < 1.0
+  ensures C20_aspect_h_lo: !fitsBox(img, w, h, cellPixW, cellPixH) ==>
+        scaleOf(img, w, h, cellPixW, cellPixH) * real(cdiv(imgH(img), cellPixH)) - real(cdiv(imgH(result), cellPixH)) < 1.0
+  -- an image that already fits is returned as it is
+  ensures C20_same: fitsBox(img, w, h, cellPixW, cellPixH) ==> result == img
+@*/
